@@ -359,6 +359,7 @@ pub fn start_freezer_node(dir: &std::path::Path, ancient: &std::path::Path, cons
     let _ = std::fs::remove_dir_all(&scratch);
     let mut node = Node::start(&scratch, consensus.clone(), cfg);
     std::fs::create_dir_all(dir.join("header_map")).unwrap();
+    std::fs::create_dir_all(ancient).unwrap();
     let db_config = ckb_app_config::DBConfig { path: dir.join("db"), ..Default::default() };
     let builder = ckb_shared::SharedBuilder::new("verif", dir, &db_config, Some(ancient.to_path_buf()), runtime_handle(), consensus.clone())
         .unwrap_or_else(|e| panic!("SharedBuilder::new failed: {e:?}"))
